@@ -209,8 +209,9 @@ fn one<const S: usize>(rng: &mut Rng) -> Case {
         .map(|id| {
             let mut answers = Vec::new();
             for code in [0x99u64, 0x9a, 0x9b, 0x9c] {
-                let k = match rng.below(6) {
+                let k = match rng.below(8) {
                     0 => Kind::Ok(rng.bytes(8)),
+                    6 | 7 => Kind::Validating(rng.bytes(8)),
                     1 => Kind::Custom,
                     2 => Kind::Fatal,
                     3 => Kind::Invalid,
@@ -235,6 +236,20 @@ fn one<const S: usize>(rng: &mut Rng) -> Case {
         tags.push("blk/duplicate".into());
         let d = payload[rng.usize(nb)].clone();
         payload.push(d);
+    }
+    if nh > 0 && rng.chance(1, 4) {
+        // several blocks under one scripted code: the answer for one must not decide the others
+        tags.push("blk/same_code_run".into());
+        let code = *rng.pick(&[0x99u64, 0x9a, 0x9b, 0x9c, 0x12]);
+        for _ in 0..2 + rng.usize(2) {
+            let mut p = vec![1u8, 0x55];
+            p.extend(leb128(code));
+            p.extend(leb128(if code == 0x12 { 32 } else { 8 }));
+            let mut data = small_data(rng);
+            if data.is_empty() { data.push(rng.below(4) as u8); }
+            let at = rng.usize(payload.len() + 1);
+            payload.insert(at, Block { prefix: p, data });
+        }
     }
     let np = match rng.below(4) { 0 => 0, _ => rng.usize(4) };
     let presences: Vec<BlockPresence> = (0..np).map(|_| gen_presence::<S>(rng, &mut tags, &pool)).collect();
